@@ -1,19 +1,23 @@
 ---------------------------- MODULE AdtTrace ----------------------------
 (* Validates recorded operation histories of a container library (harness/scm/c18adt.scm) against Adt:
      {"e":"Reset"}                                   a new history starts with an empty version store
-     {"e":"Op","op":{op,v,w,k,x,ks},"err":0|1,"obs":..,"val":[canonical value of every new version]}
+     {"e":"Op","op":{op,v,w,k,x,ks},"n":number of versions the operation creates,"err":0|1,"obs":..,
+      "val":[canonical value of every new version],"prb":[probe of every new version],
+      "chg":[[i, canonical value, probe] for every OLDER version whose content changed]}
      {"e":"End"}
-   An Op is accepted iff the operation was applicable, raised no error, its observation is one the model
-   allows and every version it created has the model's value.  A rejected Op is recorded (REJECT line) and
-   makes End unacceptable; to keep judging the rest of the history the store continues with the value the
-   implementation reported if that is a well-formed value, otherwise the history is skipped up to the next Reset. *)
+   An Op is accepted iff it raised no error, its observation is one the model allows, every version it created has
+   the model's value and probe, and every older live version is what the model says.  A rejected Op is recorded
+   (REJECT line with the reason) and makes End unacceptable.  Judging goes on after a rejection: the store takes
+   over what the implementation reported, and exactly the versions whose state can no longer be trusted (created
+   by a rejected operation, changed behind the model's back, or derived from such a version) are POISONED:
+   operations that use a poisoned version are not judged and poison what they create. *)
 EXTENDS Adt, IOUtils
 TraceLog == ndJsonDeserialize(IOEnv.TRACE)
-VARIABLES l, nbad, dead, tainted      \* tainted: an operation of the current history was rejected (the store follows the implementation since)
+VARIABLES l, nbad, poison, tainted    \* poison: versions not to be trusted; tainted: an operation of this history was rejected
 Ev == TraceLog[l]
 IsEvent(e) == l <= Len(TraceLog) /\ Ev.e = e /\ l' = l + 1
 
-TReset == /\ IsEvent("Reset") /\ ver' = <<>> /\ live' = {} /\ dead' = FALSE /\ tainted' = FALSE /\ UNCHANGED nbad
+TReset == /\ IsEvent("Reset") /\ ver' = <<>> /\ live' = {} /\ poison' = {} /\ tainted' = FALSE /\ UNCHANGED nbad
 (* what the library's own accessors must report about a version of this content (cached length, end pointers,
    deletability of every key): logged as "prb" with every new version and as third component of every chg entry *)
 Probe(x) == CASE Kind = "deque" -> <<Len(x), IF x = <<>> THEN -1 ELSE x[1], IF x = <<>> THEN -1 ELSE x[Len(x)]>>
@@ -29,35 +33,43 @@ UpdVal(r, i) == r.upd[CHOOSE j \in DOMAIN r.upd : r.upd[j][1] = i][2]
 (* canonical value of existing version i after the step, as the model has it / as the implementation reported it *)
 ModelPost(r, i) == Canon(IF i \in UpdIdx(r) THEN UpdVal(r, i) ELSE ver[i])
 ImplPost(i) == IF i \in ChgIdx THEN ChgVal(i) ELSE Canon(ver[i])
+NewIdx == (Len(ver) + 1)..(Len(ver) + Ev.n)
+BadNew(r) == {Len(ver) + i : i \in {j \in 1..Len(r.new) :
+                 Ev.err # 0 \/ Len(Ev.val) # Len(r.new) \/ Ev.val[j] # Canon(r.new[j]) \/ Ev.prb[j] # Probe(r.new[j])}}
+BadOld(r) == {i \in ((ChgIdx \cup UpdIdx(r)) \cap live) \ (r.kill \cup poison) :
+                 ImplPost(i) # ModelPost(r, i) \/ (i \in ChgIdx /\ ChgPrb(i) # Probe(From(ChgVal(i))))}
 Why(r) == IF Ev.err # 0 THEN "error"
           ELSE IF Ev.obs \notin r.obs THEN "obs"
-          ELSE IF Ev.val # [i \in 1..Len(r.new) |-> Canon(r.new[i])] THEN "val"
-          ELSE IF \E i \in ((ChgIdx \cup UpdIdx(r)) \cap live) \ r.kill : ImplPost(i) # ModelPost(r, i) THEN "clobber"
-          ELSE IF Ev.prb # [i \in 1..Len(r.new) |-> Probe(r.new[i])] THEN "probe"
-          ELSE IF \E i \in (ChgIdx \cap live) \ r.kill : ChgPrb(i) # Probe(From(ChgVal(i))) THEN "probe"
+          ELSE IF Len(Ev.val) # Len(r.new) \/ \E j \in 1..Len(r.new) : Ev.val[j] # Canon(r.new[j]) THEN "val"
+          ELSE IF \E i \in BadOld(r) : ImplPost(i) # ModelPost(r, i) THEN "clobber"
+          ELSE IF BadNew(r) # {} \/ BadOld(r) # {} THEN "probe"
           ELSE "ok"
-(* the store continues with what the implementation reported (= the model's values when the step was accepted) *)
-Reported(r) == Ev.err = 0 /\ Len(Ev.val) = Len(r.new) /\ (\A i \in DOMAIN Ev.val : WF(Ev.val[i]))
-               /\ (\A i \in ChgIdx : WF(ChgVal(i)))
-Continue(r) ==
-   /\ ver' = [i \in 1..(Len(ver) + Len(r.new)) |->
-                IF i > Len(ver) THEN From(Ev.val[i - Len(ver)])
-                ELSE IF i \in ChgIdx THEN From(ChgVal(i))
-                ELSE IF i \in UpdIdx(r) THEN UpdVal(r, i) ELSE ver[i]]
-   /\ live' = (live \ r.kill) \cup ((Len(ver) + 1)..(Len(ver) + Len(r.new)))
+(* value of new version j as far as the implementation reported one *)
+NewVal(j) == IF Ev.err = 0 /\ Len(Ev.val) = Ev.n /\ WF(Ev.val[j]) THEN From(Ev.val[j]) ELSE From(<<>>)
+OldVal(r, i) == IF i \in ChgIdx /\ WF(ChgVal(i)) THEN From(ChgVal(i))
+                ELSE IF i \in UpdIdx(r) THEN UpdVal(r, i) ELSE ver[i]
+Uses(o) == LET sig == SigName(o.op) IN (IF "v" \in sig THEN {o.v} ELSE {}) \cup (IF "w" \in sig THEN {o.w} ELSE {})
+NoRes == [new |-> <<>>, obs |-> {}, kill |-> {}, upd |-> <<>>]
 TOp == /\ IsEvent("Op")
-       /\ IF dead THEN UNCHANGED <<ver, live, nbad, dead, tainted>>
-          \* after a rejection the store follows the implementation and a later operation of the history may no longer be applicable
-          ELSE IF ~Pre(Ev.op, ver, live) /\ tainted THEN dead' = TRUE /\ UNCHANGED <<ver, live, nbad, tainted>>
-          ELSE IF ~Pre(Ev.op, ver, live) THEN PrintT(<<"BADCASE", l>>) /\ nbad' = nbad + 1 /\ dead' = TRUE /\ UNCHANGED <<ver, live, tainted>>
+       /\ IF Uses(Ev.op) \cap poison # {} \/ ~Pre(Ev.op, ver, live)
+          THEN \* not judged: an argument is poisoned, or (after a rejection) the operation no longer applies to the store
+               /\ IF Uses(Ev.op) \cap poison = {} /\ ~tainted THEN PrintT(<<"BADCASE", l>>) /\ nbad' = nbad + 1 ELSE nbad' = nbad
+               /\ ver' = [i \in 1..(Len(ver) + Ev.n) |-> IF i > Len(ver) THEN NewVal(i - Len(ver)) ELSE OldVal(NoRes, i)]
+               /\ live' = live \cup NewIdx
+               /\ poison' = poison \cup NewIdx \cup ChgIdx \cup (Uses(Ev.op) \cap DOMAIN ver)
+               /\ UNCHANGED tainted
           ELSE \E r \in {Eval(Ev.op, ver)} : \E why \in {Why(r)} :
-               /\ IF why = "ok" THEN nbad' = nbad /\ UNCHANGED tainted
-                  ELSE PrintT(<<"REJECT", l, Ev.op.op, why>>) /\ nbad' = nbad + 1 /\ tainted' = TRUE
-               /\ IF Reported(r) THEN Continue(r) /\ UNCHANGED dead ELSE dead' = TRUE /\ UNCHANGED <<ver, live>>
-TEnd == IsEvent("End") /\ nbad = 0 /\ UNCHANGED <<ver, live, nbad, dead, tainted>>
-TraceInit == ver = <<>> /\ live = {} /\ l = 1 /\ nbad = 0 /\ dead = FALSE /\ tainted = FALSE /\ hist = <<>> /\ rnd = <<>> /\ tick = 0
+               /\ IF Len(r.new) # Ev.n THEN PrintT(<<"BADCASE", l>>) /\ nbad' = nbad + 1
+                  ELSE IF why = "ok" THEN nbad' = nbad
+                  ELSE PrintT(<<"REJECT", l, Ev.op.op, why>>) /\ nbad' = nbad + 1
+               /\ tainted' = (tainted \/ why # "ok")
+               /\ ver' = [i \in 1..(Len(ver) + Ev.n) |-> IF i > Len(ver) THEN NewVal(i - Len(ver)) ELSE OldVal(r, i)]
+               /\ live' = (live \ r.kill) \cup NewIdx
+               /\ poison' = poison \cup BadNew(r) \cup BadOld(r) \cup (IF Ev.err # 0 THEN NewIdx ELSE {})
+TEnd == IsEvent("End") /\ nbad = 0 /\ UNCHANGED <<ver, live, nbad, poison, tainted>>
+TraceInit == ver = <<>> /\ live = {} /\ l = 1 /\ nbad = 0 /\ poison = {} /\ tainted = FALSE /\ hist = <<>> /\ rnd = <<>> /\ tick = 0
 TraceNext == (TReset \/ TOp \/ TEnd) /\ UNCHANGED <<hist, rnd, tick>>
-TraceSpec == TraceInit /\ [][TraceNext]_<<vars, l, nbad, dead, tainted>>
+TraceSpec == TraceInit /\ [][TraceNext]_<<vars, l, nbad, poison, tainted>>
 Accepted == LET d == TLCGet("stats").diameter IN
             IF d - 1 = Len(TraceLog) THEN TRUE ELSE PrintT(<<"TRACE_REJECTED_AT", d, Len(TraceLog)>>) /\ FALSE
 =========================================================================
